@@ -80,7 +80,7 @@ func plan(c *vf.Ctx) []caseT {
 	var cases []caseT
 	n := 0
 	rot := func(xs []string) string { n++; return xs[n%len(xs)] }
-	mult := c.N(1, 20)
+	mult := c.N(1, 12)
 	for m := 0; m < mult; m++ {
 		r := c.Rand("plan", m)
 		pick := func(xs []string) string { return xs[r.Intn(len(xs))] }
@@ -725,9 +725,9 @@ func run(c *vf.Ctx) {
 	vf.Parallel(len(cases), 8, func(i int) { runCase(c, tmpl, cases[i]) })
 
 	c.Extra("git_invocations", gitx.Calls.Load())
-	c.Floor("cases", c.Counter("cases"), c.N(450, 9000))
-	c.Floor("operations that proceeded", c.Counter("ops_proceeded"), c.N(100, 2000))
-	c.Floor("operations refused or failed", c.Counter("ops_refused_or_failed"), c.N(200, 4000))
+	c.Floor("cases", c.Counter("cases"), c.N(450, 5500))
+	c.Floor("operations that proceeded", c.Counter("ops_proceeded"), c.N(100, 1200))
+	c.Floor("operations refused or failed", c.Counter("ops_refused_or_failed"), c.N(200, 2400))
 	c.Floor("observer self-test detections", c.Counter("observer_selftest_detections"), 6)
 	c.Floor("operation kinds", c.SeenCount("ops"), 20)
 	c.Floor("structures", c.SeenCount("structures"), 14)
